@@ -41,6 +41,32 @@ Theorem C03_mutex_holder_can_run : forall s j,
   reach_fixed s -> st_bufmu s = Some j -> exists s', step (LTimer j) s = Some s'.
 Proof. exact mutex_holder_runs. Qed.
 
+(** Compliant peer and reliable network ([reach_c]: no ACK packet is injected from outside): if the
+    callback of [id] got a reply, its arguments are those of the FIRST call of the ack function of
+    the event that carried [id], and the peer really sent them.  (Ack ids are positions in the
+    emitter's allocation order: an id is never given to a second event.) *)
+Theorem C03_reply_matches_event : forall s id a,
+  reach_c s -> In (OReply a) (outcomes s id) ->
+  first_call (st_plog s) id = Some a /\ In (id, a) (st_psent s).
+Proof. exact reply_matches_event. Qed.
+
+(** However often and from however many goroutines the peer's handlers call the ack function of an
+    event, at most one ACK packet is put on the wire for it, carrying the first call's arguments. *)
+Theorem C03_one_reply_per_event : forall s id,
+  reach s ->
+  cnt (fstis id) (st_psent s) <= 1
+  /\ (forall a, In (id, a) (st_psent s) -> first_call (st_plog s) id = Some a).
+Proof. exact one_reply_per_event. Qed.
+
+(** Non-vacuity: a schedule in which reply and timer race for the same id, a duplicate arrives,
+    and the state reached is terminal with exactly the reply delivered. *)
+Example C03_example_race :
+  let s := run [LEmit true 1; LEmitStep 0; LEmitStep 0; LPeerAck 0 [7%N]; LPeerAck 0 [8%N]; LDeliver 0;
+                LPacketIn 0 [9%N]; LReply 0 true; LReply 0 true; LTimer 0; LReply 1 true; LReply 0 true]
+               (init_state (mkConfig true false) true) in
+  terminalb s = true /\ outcomes s 0 = [OReply [7%N]] /\ st_psent s = [(0, [7%N])].
+Proof. vm_compute. auto. Qed.
+
 (** What the fix repaired, on the model of the old loop: an event with one attachment buffered
     offline makes the purge panic (mutex left locked, callback never called); behind another
     packet's frames the loop leaves an attachment frame of the timed-out packet in the buffer. *)
